@@ -280,6 +280,8 @@ def relabel_steps(ser, how):
         m = dict(zip(steps, perm))
     elif how == "timestamp_ns":
         m = {s_: 1_700_000_000_000_000_000 + q for q, s_ in enumerate(steps)}       # int64 nanosecond time stamps
+    elif how == "float_seconds":
+        m = {s_: 0.25 * q for q, s_ in enumerate(steps)}                            # labelled by time in seconds
     elif how == "negative":
         m = {s_: q - len(steps) - 3 for q, s_ in enumerate(steps)}                  # counted back from a trigger event
     else:
@@ -318,6 +320,14 @@ def as_container(loads, kind):
         return loads.astype(np.int16) if float(np.max(np.abs(loads))) < 32000 else loads.astype(np.int32)
     if kind == "f32int":
         return loads.astype(np.float32)
+    if kind == "tuple":
+        return tuple(float(x) for x in loads)
+    if kind == "deque":
+        import collections
+        return collections.deque(float(x) for x in loads)
+    if kind == "array":
+        import array
+        return array.array("d", [float(x) for x in loads])
     if kind == "series":
         return pd.Series(loads, index=pd.RangeIndex(3, 3 + len(loads)))
     if kind == "negzero":
@@ -446,7 +456,7 @@ def generate(prop, rng, tier):
         tr = {"world": NAME, "levels": lv, "step": step, "law": rng.choice(["EN", "EN", "EN", "SB"]),
               "mat": rng.randrange(len(MATERIALS)), "bins": rng.choice([10, 20, 50]),
               "twin": None,
-              "container": rng.choice(["f64", "f64", "f64", "list", "i64", "i32", "i16", "series", "f32int", "negzero", "mixedzero", "series_ls"]),
+              "container": rng.choice(["f64", "f64", "f64", "list", "i64", "i32", "i16", "series", "f32int", "negzero", "mixedzero", "series_ls", "tuple", "deque", "array"]),
               "peek": rng.choice(["none", "none", "before", "between", "both", "plot"]),
               "ckpt": rng.choice(["none", "none", "none", "deepcopy", "pickle", "fork"])}
         if rng.random() < 0.3:
@@ -467,7 +477,8 @@ def generate(prop, rng, tier):
             tr["subset_of_mesh"] = rng.random() < 0.4
             tr["law_order"] = rng.choice(["samples", "samples", "sorted", "reversed"])
             tr["series_name"] = rng.choice([None, None, "load", "F"])
-            tr["step_labels"] = rng.choice(["range", "range", "gapped", "offset", "unsorted", "timestamp_ns", "negative"])
+            tr["step_labels"] = rng.choice(["range", "range", "gapped", "offset", "unsorted", "timestamp_ns", "negative", "float_seconds"])
+            tr["batch_dtype"] = rng.choice(["f64", "f64", "i8", "i8", "i16", "i32", "i64", "f32"])
         return tr
     return generate_c05(rng, tier)
 
@@ -637,9 +648,17 @@ def exec_c04(trace, out, log):
         if trace.get("row_order") == "node":
             ser = node_major(ser, [i for i, _ in nodes])
             out.count("probe:node_major_rows")
+        bd = trace.get("batch_dtype")
+        if bd and bd != "f64":
+            dt = {"i8": np.int8, "i16": np.int16, "i32": np.int32, "i64": np.int64, "f32": np.float32}[bd]
+            v = ser.to_numpy()
+            fits = np.array_equal(np.round(v), v) and (bd == "f32" or (np.iinfo(dt).min <= v.min() and v.max() <= np.iinfo(dt).max))
+            if fits:
+                ser = ser.astype(dt)                           # whole-number loads of a logger with a narrow integer channel
+                out.count("container:batch_" + bd)
         if trace.get("series_name"):
             ser = ser.rename(trace["series_name"])           # users' series usually carry a name
-        if trace.get("step_labels") in ("gapped", "offset", "unsorted", "timestamp_ns", "negative"):
+        if trace.get("step_labels") in ("gapped", "offset", "unsorted", "timestamp_ns", "negative", "float_seconds"):
             ser = relabel_steps(ser, trace["step_labels"])
             out.count("probe:load_step_labels_" + trace["step_labels"])
         law = get_law(trace["law"], int(trace["mat"]), law_nodes([(i, big * 1.0731 * r) for i, r in nodes], trace.get("law_order")), int(trace["bins"]))
@@ -990,7 +1009,7 @@ def exec_c05(trace, out, log):
         out.count("probe:node_major_rows")
     if trace.get("series_name"):
         batch = batch.rename(trace["series_name"])
-    if trace.get("step_labels") in ("gapped", "offset", "unsorted", "timestamp_ns", "negative"):
+    if trace.get("step_labels") in ("gapped", "offset", "unsorted", "timestamp_ns", "negative", "float_seconds"):
         batch = relabel_steps(batch, trace["step_labels"])
         out.count("probe:load_step_labels_" + trace["step_labels"])
     if shared:
